@@ -249,6 +249,18 @@ class FactBase:
                     elif k == "meta":
                         self.meta[r["crate"]] = r
             self.hashes[c] = h.hexdigest()[:16]
+        # Every rule sees the *inlined view* (vlint.inline): helpers that the reference tree does not have and closure
+        # combinators are expanded into their callers, so that moving logic in or out of a helper, or rewriting a
+        # match with map_or/is_some_and/any, does not change the analysed shape.  Originals stay in orig_fns.
+        self.orig_fns = dict(self.fns)
+        if os.environ.get("VERIF_NO_INLINE") != "1":
+            from .inline import Inliner, default_policy
+            inl = Inliner(self, default_policy(self), src=self.orig_fns)
+            self.fns = {k: inl.run(f) for k, f in self.orig_fns.items()}
+            # new helpers all of whose call sites were expanded are analysed in their callers only
+            self.absorbed = set(inl.absorbed)
+        else:
+            self.absorbed = set()
         self._by_name = {}
         for f in self.fns.values():
             self._by_name.setdefault(f.name, []).append(f)
